@@ -322,6 +322,11 @@ class BodyExec:
             if isinstance(st, ast.Return):
                 return ("ret", self.ret_value(st, env))
             if isinstance(st, ast.If):
+                if self.is_float_widening(st, env):
+                    # `if values.dtype == np.float16: values = values.astype(np.float32)`: a widening of
+                    # a floating array, identity over R; says nothing about integer arrays (kind unchanged)
+                    i += 1
+                    continue
                 if self.is_dtype_cast(st, env):
                     # `if np.issubdtype(values.dtype, np.integer): values = values.astype(np.float64)`
                     # identity over R.  (A cast AFTER integer arithmetic does not make the earlier
@@ -382,6 +387,29 @@ class BodyExec:
         return ("cont", env)
 
     # ----------------------------------------------------------------
+    def is_float_widening(self, st: ast.If, env):
+        """`if V.dtype == np.float16: V = V.astype(np.float32 | np.float64 | float)`"""
+        t = st.test
+        ok_test = (isinstance(t, ast.Compare) and len(t.ops) == 1 and isinstance(t.ops[0], ast.Eq)
+                   and isinstance(t.left, ast.Attribute) and t.left.attr == "dtype"
+                   and isinstance(t.left.value, ast.Name) and t.left.value.id == self.V
+                   and _is_np(t.comparators[0], "float16"))
+        if not ok_test:
+            return False
+        if st.orelse or len(st.body) != 1:
+            _fail(st, "float16 guard with an unexpected body")
+        b = st.body[0]
+        ok_body = (isinstance(b, ast.Assign) and len(b.targets) == 1 and isinstance(b.targets[0], ast.Name)
+                   and b.targets[0].id == self.V and isinstance(b.value, ast.Call)
+                   and isinstance(b.value.func, ast.Attribute) and b.value.func.attr == "astype"
+                   and isinstance(b.value.func.value, ast.Name) and b.value.func.value.id == self.V
+                   and len(b.value.args) == 1 and not b.value.keywords
+                   and (_is_np(b.value.args[0], "float32") or _is_np(b.value.args[0], "float64")
+                        or (isinstance(b.value.args[0], ast.Name) and b.value.args[0].id == "float")))
+        if not ok_body:
+            _fail(st, "float16 guard with an unexpected body")
+        return True
+
     def is_dtype_cast(self, st: ast.If, env):
         t = st.test
         ok_test = (isinstance(t, ast.Call) and _is_np(t.func, "issubdtype") and len(t.args) == 2
